@@ -302,6 +302,9 @@ func init() {
 			}
 		}
 		enum.Parallel(len(jobs), func(i int) {
+			if r.TimeUp() {
+				return
+			}
 			j := jobs[i]
 			log, cs, abn := runTrig(j.c, j.evs)
 			r.AddCounts(1, int64(len(j.evs)+1), 1)
@@ -362,6 +365,9 @@ func init() {
 			}
 		}
 		enum.Parallel(len(jobs), func(i int) {
+			if r.TimeUp() {
+				return
+			}
 			j := jobs[i]
 			log, cs, abn := runTrig(j.c, j.evs)
 			r.AddCounts(1, int64(len(j.evs)+1), 1)
